@@ -3,6 +3,8 @@
 From Coq Require Import String List Bool.
 Import ListNotations.
 Require Import Verif.Eval.Value Verif.Eval.Interp Verif.Gen.EvalTables.
+Local Open Scope string_scope.
+Local Open Scope list_scope.
 
 (* concat builds its result in fresh storage: this is what justifies values without storage identity *)
 Lemma concat_copies : concat_shape = ConcatCopy.
@@ -97,3 +99,23 @@ Proof. reflexivity. Qed.
    (fixes/C10-5; the model's program is a Gallina value, so this is the whole of "the module is unchanged") *)
 Lemma module_not_written : eval_writes_view_type = false.
 Proof. reflexivity. Qed.
+
+(* ---- the evaluator keeps no state from one evaluation of an expression node to the next ----
+   Everything that could carry such state, as the source has it NOW: the fields of exprEval (the application, read only;
+   the expression stack, pushed and popped around each evaluation and read by the logger; the logger; the debugger hook,
+   assigned when the debugger is switched on or fails), the package-level variables (the dispatch tables and the helper
+   table: never written), the expression tree of the shared module (never assigned to: NegateBinExprStrategy works on a
+   copy of the node), and every map any function writes to (the Scope, under the reviewed keys below: let names, scope
+   variables, ".", parameters, the template result name; local sets of the union helpers; the items of values under
+   construction).  A cache keyed by node would be a new field, a written package variable, a write into the tree or a
+   map of another class: each breaks this lemma. *)
+Definition map_write_ok (c:map_write_class) : bool :=
+  match c with MwScope | MwLocal | MwParamMap | MwValueItems => true | _ => false end.
+Lemma eval_keeps_no_per_node_state :
+  expr_eval_fields = [("txApp", FuRead); ("exprStack", FuStack); ("logger", FuRead); ("dbg", FuWritten ["EvaluateApp"; "exprEval.eval"])]
+  /\ forallb (fun p => match snd p with PvNeverWritten => true | PvWritten _ => false end) eval_package_vars = true
+  /\ eval_ast_writes = []
+  /\ forallb (fun w => map_write_ok (snd w)) eval_map_writes = true
+  /\ eval_scope_keys = ["""."""; "binexpr.Scopevar"; "k"; "name"; "params[i].Name"; "parse.TemplateImpliedResult"; "scopeVar";
+                        "ss.Let.Name"; "x.Name"; "x.Transform.Scopevar"].
+Proof. repeat split; reflexivity. Qed.
